@@ -249,10 +249,17 @@ Definition mstep (root : node) (o : op) : node * res oerr bool * list signal :=
 Definition res_obs (r : res oerr bool) : sres :=
   match r with Ok b => RBool b | Err _ => RErr | Panic _ => RPanic end.
 
+(* the result as far as the property speaks of it: the flag of a successful removal is forgotten *)
+Definition res_prop (o : op) (r : res oerr bool) : sres :=
+  match o, r with
+  | Rm _ _, Ok _ => RDone
+  | _, _ => res_obs r
+  end.
+
 Fixpoint mrun (root : node) (h : list op) : node * list sres :=
   match h with
   | [] => (root, [])
-  | o :: r => let '(t1, x, _) := mstep root o in let '(t2, xs) := mrun t1 r in (t2, res_obs x :: xs)
+  | o :: r => let '(t1, x, _) := mstep root o in let '(t2, xs) := mrun t1 r in (t2, res_prop o x :: xs)
   end.
 
 Definition model_state (h : list op) : node := fst (mrun root0 h).
